@@ -74,7 +74,7 @@ class ADX(Indicator):
         adx_positive = None
         adx_negative = None
 
-        if self.reading("high"):
+        if self.reading("high") and index > 0:
             up = self.reading("high") - self.reading("high", index - 1)
             down = self.reading("low", index - 1) - self.reading("low")
 
